@@ -260,6 +260,7 @@ def run(ctx: Ctx):
         out.append(c.result())
     ctx.correspond("all indices in [-2n-1, 2n+1] for n = 1..6 sheets", req, out, exhaustive=True, keep=1)
     getitem_stream(ctx)
+    doctree_stream(ctx)
 
 
 def getitem_stream(ctx: Ctx):
@@ -315,9 +316,258 @@ def getitem_stream(ctx: Ctx):
         sub["skipped_model"] = True
 
 
+# ---------------------------------------------------------------------------------------------------------------
+# the document tree: sheet / table references, names, labels — in memory, in the saved package, after reopening it
+# from any file order (Model/DocTree.lean)
+# ---------------------------------------------------------------------------------------------------------------
+DT_SOURCES = [None, None, None, "test-1.numbers", "test-7.numbers", "issue-77.numbers", "create-formulas.numbers", "test-bgcolour.numbers"]
+DT_NAMES = ["Alpha", "beta", "Γ", "Data 2", "x", "Sheet 9", "Table 9", "Élan", "名前", "a b", "Z-1", "Q", "R2", "s3", "T4", "u5", "V6",
+            "w7", "X8", "y9"]
+DT_CAPTIONS = ["", "A caption", "Caption", "zwei\nZeilen", "é", "x" * 40]
+
+
+def _dt_target_diff(before, after):
+    """positions (sheet index, table index or None) at which two plain views differ; None when the shapes differ"""
+    if len(before) != len(after):
+        return None
+    out = []
+    for i, (a, b) in enumerate(zip(before, after)):
+        if a[0] != b[0]:
+            out.append((i, None))
+        if len(a[1]) != len(b[1]):
+            return None
+        for j, (x, y) in enumerate(zip(a[1], b[1])):
+            if x != y:
+                out.append((i, j))
+    return out
+
+
+def doctree_history(ctx: Ctx, hid: int, src, nops: int):
+    import doctree
+    import layouts
+    from numbers_parser import Document
+    rng = ctx.rng
+    path = str(REPO / "tests/data" / src) if src else None
+    doc = Document(path) if path else Document(num_rows=rng.choice([3, 12]), num_cols=rng.choice([2, 8]))
+    twin = Document(path) if path else Document()
+    twin_view = doctree.plain_view(twin)
+    where = {"history": hid, "seed": ctx.seed, "source": src, "stream": "doctree"}
+    log: list = [] if path else [["new", doc.sheets[0].tables[0].num_rows, doc.sheets[0].tables[0].num_cols]]
+    facts0 = doctree.store_facts(doc)
+    if facts0:
+        ctx.notes.append(f"{src}: side condition of the reload theorems does not hold for the document as loaded: {facts0[:2]}")
+    init = doctree.snapshot(doc)
+    ops, outs = [], []
+    used = {s.name.lower() for s in doc.sheets} | {t.name.lower() for s in doc.sheets for t in s.tables}
+    tmp = tempfile.mkdtemp(prefix="c19dt")
+    nfile = 0
+    dead = False
+
+    def fresh():
+        for _ in range(50):
+            nm = rng.choice(DT_NAMES) + rng.choice(["", "", " 2", "'", "ß"])
+            if nm.lower() not in used:
+                used.add(nm.lower())
+                return nm
+        nm = f"n{len(used)}"
+        used.add(nm)
+        return nm
+
+    def expect_only(before, targets, what):
+        after = doctree.plain_view(doc)
+        d = _dt_target_diff(before, after)
+        if d is None or any(x not in targets for x in d):
+            ctx.violation("edit-leaks-to-sibling", f"{what}: changed {d!r}, expected only {sorted(targets)!r}; before {before!r} after {after!r}",
+                          {**where, "log": list(log)})
+
+    try:
+        for _ in range(nops):
+            if dead:
+                break
+            r = rng.random()
+            before = doctree.plain_view(doc)
+            ns = len(doc.sheets)
+            if r < 0.12 and ns < 5:
+                nm, tn = fresh(), fresh()
+                rows, cols = rng.choice([2, 5, 300]), rng.choice([2, 3])
+                prev = doc.sheets[-1].tables[0]._table_id
+                log.append(["add_sheet", nm, tn, rows, cols])
+                try:
+                    doc.add_sheet(nm, tn, num_rows=rows, num_cols=cols)
+                    s = doc.sheets[-1]
+                    ops += [f"AS {enc_text(nm)}", f"AT {s._sheet_id} {enc_text(tn)} {prev} 0 0 {rows} 1 1"]
+                    outs += [f"ok {s._sheet_id}", f"ok {s.tables[0]._table_id}"]
+                    after = doctree.plain_view(doc)
+                    if after[:ns] != before or len(after) != ns + 1 or after[ns][0] != nm or [t[0] for t in after[ns][1]] != [tn]:
+                        ctx.violation("add-disturbs-order", f"add_sheet({nm!r}, {tn!r}): before {before!r} after {after!r}", {**where, "log": list(log)})
+                except Exception as e:  # noqa: BLE001
+                    ops.append(f"AS {enc_text(nm)}")
+                    outs.append("err " + exc_name(e))
+                    dead = True
+                    ctx.violation("edit-raises-on-reordered-container" if isinstance(e, AttributeError) else "add-wrong-exception",
+                                  f"add_sheet({nm!r}) raised {exc_name(e)}: {e}", {**where, "log": list(log)})
+            elif r < 0.34:
+                si = rng.randrange(ns)
+                s = doc.sheets[si]
+                if len(s.tables) >= 5:
+                    continue
+                nm = fresh()
+                rows, cols = rng.choice([2, 4, 257]), rng.choice([2, 3])
+                hr, hc = rng.randrange(0, 3), rng.randrange(0, 3)
+                xy = (None, None) if rng.random() < 0.5 else (rng.randrange(0, 2000) / 4, rng.randrange(0, 4000) / 4)
+                frm = s.tables[-1]._table_id
+                nt = len(s.tables)
+                log.append(["add_table", si, nm, xy[0], xy[1], rows, cols, hr, hc])
+                try:
+                    t = s.add_table(nm, xy[0], xy[1], rows, cols, hr, hc)
+                    x, y = t.coordinates
+                    ops.append(f"AT {s._sheet_id} {enc_text(nm)} {frm} {doctree.f32bits(x)} {doctree.f32bits(y)} {rows} {hr} {hc}")
+                    outs.append(f"ok {t._table_id}")
+                    after = doctree.plain_view(doc)
+                    ok = len(after) == ns and all(after[i] == before[i] for i in range(ns) if i != si) and \
+                        after[si][0] == before[si][0] and after[si][1][:nt] == before[si][1] and len(after[si][1]) == nt + 1 and \
+                        after[si][1][nt][0] == nm
+                    if not ok:
+                        ctx.violation("add-disturbs-order", f"add_table({nm!r}) on sheet #{si}: before {before!r} after {after!r}", {**where, "log": list(log)})
+                except Exception as e:  # noqa: BLE001
+                    dead = True
+                    ctx.violation("add-wrong-exception", f"add_table({nm!r}) raised {exc_name(e)}: {e}", {**where, "log": list(log)})
+            elif r < 0.44:
+                si = rng.randrange(ns)
+                nm = fresh()
+                log.append(["rename_sheet", si, nm])
+                doc.sheets[si].name = nm
+                ops.append(f"SN {doc.sheets[si]._sheet_id} {enc_text(nm)}")
+                outs.append("ok")
+                expect_only(before, {(si, None)}, f"sheets[{si}].name = {nm!r}")
+            elif r < 0.8:
+                si = rng.randrange(ns)
+                s = doc.sheets[si]
+                ti = rng.randrange(len(s.tables))
+                t = s.tables[ti]
+                kind = rng.choice(["name", "name_enabled", "caption_enabled", "caption", "hdr_rows", "hdr_cols"])
+                tid = t._table_id
+                if kind == "name":
+                    v = fresh()
+                    log.append(["table", si, ti, kind, v])
+                    t.name = v
+                    ops.append(f"TN {tid} {enc_text(v)}")
+                elif kind == "name_enabled":
+                    v = rng.random() < 0.5
+                    log.append(["table", si, ti, kind, v])
+                    t.table_name_enabled = v
+                    ops.append(f"NE {tid} {int(v)}")
+                elif kind == "caption_enabled":
+                    v = rng.random() < 0.5
+                    log.append(["table", si, ti, kind, v])
+                    t.caption_enabled = v
+                    ops.append(f"CE {tid} {int(v)}")
+                elif kind == "caption":
+                    v = rng.choice(DT_CAPTIONS)
+                    log.append(["table", si, ti, kind, v])
+                    try:
+                        t.caption = v
+                    except (IndexError, StopIteration) as e:
+                        # C16 known finding `caption-setter-raises` (documents without the objects a new caption needs)
+                        ctx.count(f"caption setter raised {exc_name(e)} (C16 known finding caption-setter-raises): history ended", 1)
+                        dead = True
+                        continue
+                    ops.append(f"CT {tid} {enc_text(v)}")
+                elif kind == "hdr_rows":
+                    v = rng.randrange(0, min(t.num_rows, 5) + 1)
+                    log.append(["table", si, ti, kind, v])
+                    t.num_header_rows = v
+                    ops.append(f"HR {tid} {v}")
+                else:
+                    v = rng.randrange(0, min(t.num_cols, 5) + 1)
+                    log.append(["table", si, ti, kind, v])
+                    t.num_header_cols = v
+                    ops.append(f"HC {tid} {v}")
+                outs.append("ok")
+                expect_only(before, {(si, ti)}, f"sheets[{si}].tables[{ti}].{kind} = {v!r}")
+                got = doctree.plain_view(doc)[si][1][ti]
+                idx = {"name": 0, "name_enabled": 1, "caption": 3, "hdr_rows": 4, "hdr_cols": 5}.get(kind)
+                if idx is not None and got[idx] != v:
+                    ctx.violation("setter-not-seen-by-getter", f"sheets[{si}].tables[{ti}].{kind} = {v!r} then reads {got[idx]!r}", {**where, "log": list(log)})
+            elif r < 0.88:
+                ops.append("Q")
+                outs.append(doctree.api_view(doc))
+            else:
+                mode = rng.choice(doctree.MODES)
+                log.append(["save_reopen", mode])
+                # what Document.save creates: per table (sheet by sheet) a merge map, then one tile per 256 rows
+                created = []
+                for s in doc.sheets:
+                    for t in s.tables:
+                        created += ["CalculationEngine"] + ["Index/Tables/Tile-{}"] * (((t.num_rows - 1) >> 8) + 1)
+                nfile += 1
+                p1, p2 = os.path.join(tmp, f"a{nfile}.numbers"), os.path.join(tmp, f"b{nfile}.numbers")
+                doc.save(p1)
+                pkg = layouts.Package.load(p1)
+                ops += [f"CO {len(created)} " + " ".join(enc_text(c) for c in created), "Q", "SV", f"LD {mode}", "Q"]
+                outs += ["ok", doctree.api_view(doc), "ok " + doctree.package_view(pkg), "ok"]
+                doctree.rewrite(pkg, mode).write_zip(p2)
+                doc = Document(p2)
+                outs.append(doctree.api_view(doc))
+                after = doctree.plain_view(doc)
+                ctx.count(f"save / rewrite ({mode}) / reopen: names, order and labels", 1)
+                if [(a[0], [t[0] for t in a[1]]) for a in after] != [(a[0], [t[0] for t in a[1]]) for a in before]:
+                    ctx.violation("names-or-order-change-on-reload" if mode == "id" else "table-order-depends-on-file-order",
+                                  f"layout {mode}: before save {[(a[0], [t[0] for t in a[1]]) for a in before]!r}, after reopen "
+                                  f"{[(a[0], [t[0] for t in a[1]]) for a in after]!r}", {**where, "log": list(log)})
+                elif after != before:
+                    ctx.violation("label-changes-on-reload", f"layout {mode}: before save {before!r}, after reopen {after!r}", {**where, "log": list(log)})
+                os.unlink(p1)
+                os.unlink(p2)
+        if not dead:
+            ops.append("Q")
+            outs.append(doctree.api_view(doc))
+            facts = doctree.store_facts(doc)
+            if facts and not facts0:
+                ctx.violation("store-side-condition-lost", f"after the history: {facts[:3]}", {**where, "log": list(log)})
+        if doctree.plain_view(twin) != twin_view:
+            ctx.violation("edit-leaks-to-other-document", f"a second document opened from the same source changed: {twin_view!r} -> {doctree.plain_view(twin)!r}",
+                          {**where, "log": list(log)})
+    finally:
+        import shutil
+        shutil.rmtree(tmp, ignore_errors=True)
+    return "doctree hist " + init + " " + " ".join(ops), ";".join(outs), log
+
+
+def _dt_worker(task):
+    import warnings
+    warnings.simplefilter("ignore")
+    seed, h, src = task
+    sub = Ctx(PID, "quick", seed * 1_000_003 + 77_777 + h)
+    sub.seed = seed
+    line, out, log = doctree_history(sub, h, src, sub.rng.randrange(4, 14))
+    if h < 2:
+        sub.sample({"stream": "doctree", "source": src, "log": log[:10]})
+    return common.sub_result(sub, (line, out, " AT " in line or " AS " in line or " LD " in line))
+
+
+def doctree_stream(ctx: Ctx):
+    n_hist = 160 if ctx.quick else 2400
+    tasks = []
+    for h in range(n_hist):
+        src = DT_SOURCES[h % len(DT_SOURCES)]
+        if src and not (REPO / "tests/data" / src).exists():
+            src = None
+        tasks.append((ctx.seed, h, src))
+    req, out, nt = [], [], {}
+    for line, o, nontriv in common.run_parallel(ctx, _dt_worker, tasks):
+        req.append(line)
+        out.append(o)
+        nt[line] = nontriv
+    ctx.correspond("document-tree histories: ids, names, order, labels in memory; the saved package member by member; after reopening "
+                   "a rewritten layout", req, out, keep=0, describe=lambda r: r[:200], nontrivial=lambda r, o: nt.get(r, False))
+
+
 def replay(data):
     from numbers_parser import Document
     i = data["input"]
+    if i.get("stream") == "doctree":
+        return replay_doctree(i)
     src = i.get("source")
     doc = Document(str(REPO / "tests/data" / src)) if src else Document()
     res = []
@@ -343,3 +593,47 @@ def replay(data):
         except Exception as e:  # noqa: BLE001
             extra["sheets[index]"] = exc_name(e)
     return {"ops": res, "final": state, **extra}
+
+
+def replay_doctree(i):
+    """re-run one document-tree history on the real code; returns the view after every step"""
+    import doctree
+    import layouts
+    from numbers_parser import Document
+    src = i.get("source")
+    doc = None
+    res = []
+    tmp = tempfile.mkdtemp(prefix="c19rp")
+    try:
+        log = list(i.get("log", []))
+        if log and log[0][0] == "new":
+            doc = Document(num_rows=log[0][1], num_cols=log[0][2])
+            log = log[1:]
+        else:
+            doc = Document(str(REPO / "tests/data" / src)) if src else Document()
+        for k, op in enumerate(log):
+            try:
+                if op[0] == "add_sheet":
+                    doc.add_sheet(op[1], op[2], num_rows=op[3], num_cols=op[4])
+                elif op[0] == "add_table":
+                    doc.sheets[op[1]].add_table(op[2], op[3], op[4], op[5], op[6], op[7], op[8])
+                elif op[0] == "rename_sheet":
+                    doc.sheets[op[1]].name = op[2]
+                elif op[0] == "table":
+                    t = doc.sheets[op[1]].tables[op[2]]
+                    attr = {"name": "name", "name_enabled": "table_name_enabled", "caption_enabled": "caption_enabled", "caption": "caption",
+                            "hdr_rows": "num_header_rows", "hdr_cols": "num_header_cols"}[op[3]]
+                    setattr(t, attr, op[4])
+                elif op[0] == "save_reopen":
+                    p1, p2 = os.path.join(tmp, f"a{k}.numbers"), os.path.join(tmp, f"b{k}.numbers")
+                    doc.save(p1)
+                    doctree.rewrite(layouts.Package.load(p1), op[1]).write_zip(p2)
+                    doc = Document(p2)
+                res.append([op, "ok", [(s.name, [t.name for t in s.tables]) for s in doc.sheets]])
+            except Exception as e:  # noqa: BLE001
+                res.append([op, exc_name(e) + ": " + str(e)])
+                break
+    finally:
+        import shutil
+        shutil.rmtree(tmp, ignore_errors=True)
+    return {"steps": res, "final": repr(doctree.plain_view(doc)) if doc is not None else None}
